@@ -16,7 +16,7 @@ func c01Record(rng *rand.Rand, uid *int) string {
 	member := func() string {
 		*uid++
 		u := *uid
-		switch rng.Intn(12) {
+		switch rng.Intn(14) {
 		case 0:
 			return reqNote(fmt.Sprintf("n%d", u), "ok")
 		case 1:
@@ -35,6 +35,8 @@ func c01Record(rng *rand.Rand, uid *int) string {
 			return fmt.Sprintf(`{"jsonrpc":"2.0","id":"s%d","method":"m","params":["c%d","ok"]}`, u, u)
 		case 8:
 			return fmt.Sprintf(`{"jsonrpc":"2.0","method":"nope","params":["n%d","ok"]}`, u)
+		case 9, 10: // an explicit null id is a notification too - any number of them, in one batch or in a row
+			return fmt.Sprintf(`{"jsonrpc":"2.0","id":null,"method":"m","params":["n%d","ok"]}`, u)
 		}
 		return reqCall(u, fmt.Sprintf("c%d", u), []string{"ok", "err", "errcode:7"}[rng.Intn(3)])
 	}
